@@ -32,18 +32,18 @@ def run(ctx):
     ncases, kinds = 0, {}
     if prop == "C04":
         stats = ctx.driver_json(["parse-header", "--out", tp, "--seed", ctx.seed, "--unknown-stride", 16 if q else 1,
-                                 "--random", 3000 if q else 400000], timeout=3000)["stats"]
+                                 "--random", 3000 if q else 1500000], timeout=3000)["stats"]
         nontrivial = (stats.get("headers", 0), "well-formed headers with distinct (type code, name form, seconds, milliseconds, sequence, body) and every malformed variant")
         exhaustive_note = "all 65536 type codes are written by the library's name and (for every n-th code) as UNKNOWN[n]"
     elif prop == "C12":
-        stats = ctx.driver_json(["parse-fields", "--out", tp, "--seed", ctx.seed, "--n", 1500 if q else 60000], timeout=3000)["stats"]
+        stats = ctx.driver_json(["parse-fields", "--out", tp, "--seed", ctx.seed, "--n", 1500 if q else 400000], timeout=3000)["stats"]
         nontrivial = (stats.get("untrusted", 0) + stats.get("execve_args", 0) + stats.get("saddr", 0),
                       "random values that the kernel encoding turns into quoted or hex text, through every decoding path, plus socket addresses")
         exhaustive_note = "every (arch, syscall number) of the exported tables for the 9 architectures with a UAPI code, and every errno 1..133, are swept completely"
     else:
         casep, ncases, kinds = enumerate_cases(ctx, ["shape", "pair", "saddr", "selinux", "avc", "execve", "header"])
-        stats = ctx.driver_json(["parse-total", "--cases", casep, "--out", tp, "--seed", ctx.seed, "--reps", 2 if q else 20,
-                                 "--mutations", 150 if q else 3000, "--random", 20000 if q else 500000, "--repo", core.REPO],
+        stats = ctx.driver_json(["parse-total", "--cases", casep, "--out", tp, "--seed", ctx.seed, "--reps", 2 if q else 40,
+                                 "--mutations", 150 if q else 6000, "--random", 20000 if q else 1000000, "--repo", core.REPO],
                                 timeout=6000)["stats"]
         nontrivial = (stats.get("ret_ok", 0), "inputs on which the parser returned a message whose Data/Tags/ToMapStr were then called repeatedly")
         exhaustive_note = "the case grammar (record type x field x value shape, sockaddr family x length, SELinux parts, AVC forms, EXECVE shapes, header defects) is enumerated completely by TLC; strings are sampled"
